@@ -44,12 +44,27 @@ _NONFUTURES = {
                                       {"dict": [[0, "bad"]]}, "bad", "bad"])] + [{"op": "return", "e": 1}]],
     "params": {"kinds": {}, "vary_bad": True},
 }
+# a failure that is already there (ErrorFuture, failing lazy) next to lazy futures that nobody has computed yet and
+# nothing else pending: the lazy siblings are computed before the failure is delivered
+_LAZY_SIBLINGS = {
+    "roots": [[
+        {"op": "try", "body": [{"op": "yield", "x": "x1", "s": {"tuple": [{"new": {"error": 7}}, {"new": {"lazy": {"ok": 1}}}, {"new": {"lazy": {"err": 8}}}]}}],
+         "x": "e1", "handler": []},
+        {"op": "try", "body": [{"op": "yield", "x": "x2", "s": {"list": [{"new": {"lazy": {"err": 9}}}, {"dict": [[0, {"new": {"lazy": {"ok": 2}}}]]}, {"new": {"lazy": {"ok": 3}}}]}}],
+         "x": "e2", "handler": []},
+        {"op": "let", "h": "h1", "f": {"task": [{"op": "raise", "e": 5}]}},
+        {"op": "try", "body": [{"op": "yield", "x": "x3", "s": {"old": "h1"}}], "x": "e3", "handler": []},
+        {"op": "try", "body": [{"op": "yield", "x": "x4", "s": {"tuple": [{"new": {"const": 4}}, {"old": "h1"}, {"new": {"lazy": {"ok": 6}}}]}}], "x": "e4", "handler": []},
+        {"op": "return", "e": 0}]],
+    "params": {"kinds": {}},
+}
 _EXTRA = [
     (2, dict(_base, name="vary-bad", p_bad=0.3, p_vary_bad=1.0, p_try=0.3)),
     (2, dict(_base, name="base-errors", p_base_err=1.0, p_raise=0.15, p_item_err=0.2, p_flush_raise=0.5, p_try=0.3, p_errfut=0.1)),
     (1, dict(_base, name="reuse", p_again=0.6, p_let=0.35, p_old=0.5, p_errfut=0.15, p_try=0.25)),
+    (2, dict(_base, name="lazy-siblings", p_lazy=0.45, p_lazy_err=0.4, p_errfut=0.3, p_item=0.08, p_const=0.15, p_try=0.4, p_old=0.3, p_let=0.2, budget=10)),
 ]
 
 mach.install(globals(), "C02", ("EvStep", "EvGot", "EvDone"), ("C02:",), PROFILES, n_quick=300, n_thorough=25000,
-             nontrivial=_nontrivial, level="proof", corpus=_CORPUS + [_NONFUTURES],
-             extra_gen=mach.extra_profiles(_EXTRA, 60, 4000))
+             nontrivial=_nontrivial, level="proof", corpus=_CORPUS + [_NONFUTURES, _LAZY_SIBLINGS],
+             extra_gen=mach.extra_profiles(_EXTRA, 80, 5500))
